@@ -17,7 +17,7 @@ import z3
 
 from pyvc.registry import reg
 from pyvc.interp import Interp
-from pyvc.core import PList, PDict, SymObj, ClassVal, fresh_int, fresh_bool, fresh_name, Unsupported, PyvcError, Obligation, same_value
+from pyvc.core import PList, PDict, SymObj, ClassVal, fresh_int, fresh_bool, fresh_name, Unsupported, PyvcError, Obligation, same_value, HARNESS_ERRORS
 from pyvc import source as src, bvmode
 
 ARR = "xobjects/array.py"
@@ -771,7 +771,7 @@ def vc_ref():
                           it.oblige(st2, "post", f"resolves_in_own_buffer[{form}]", z3.BoolVal(org[2] == buf.uid))
               it.contract = con
           obs += it.obligations
-      except Unsupported as e:
+      except HARNESS_ERRORS as e:
           vc_ref.undecided.append((form, str(e)[:120]))
           obs += it.obligations
     vc_ref.interps = its
@@ -995,7 +995,7 @@ def vc_struct_layout_small():
                     ob("has_refs", want_hr == (z3.BoolVal(hr) if isinstance(hr, bool) else hr) if isinstance(hr, bool) or z3.is_bool(hr) else False)
                     ob("static_and_dynamic_field_lists", [f.attrs["index"] for f in d["_s_fields"].items] == [k for k in range(n) if not pattern[k]]
                        and [f.attrs["index"] for f in d["_d_fields"].items] == [k for k in range(n) if pattern[k]])
-            except Unsupported as e:
+            except HARNESS_ERRORS as e:
                 vc_struct_layout_small.undecided.append((lab, str(e)[:150]))
             obs += it.obligations
     vc_struct_layout_small.interps = its
@@ -1142,7 +1142,7 @@ def vc_struct_layout_loops():
                 else:
                     sz = st1.locals.get("size")
                     it.oblige(st1, "post", f"size_is_final_offset[{lab}]", z3.And(sz >= 0, sz % 8 == 0) if sz is not None else z3.BoolVal(False))
-        except Unsupported as e:
+        except HARNESS_ERRORS as e:
             vc_struct_layout_loops.undecided.append((lab, str(e)[:150]))
         obs += it.obligations
     vc_struct_layout_loops.interps = its
@@ -1350,7 +1350,7 @@ def vc_struct_small():
                     for k in range(n):
                         ob(f"field{k}_slot_aligned", ext[k][0] % 8 == 0)
                 obs += it.obligations
-            except Unsupported as e:
+            except HARNESS_ERRORS as e:
                 vc_struct_small.undecided.append((lab, str(e)[:160]))
                 obs += it.obligations
     vc_struct_small.interps = its
